@@ -13,7 +13,7 @@ from simlib.driver import list_removals
 KINDS = ["too-few-params", "too-many-params", "wrong-literal-kind", "unknown-keyword", "abstract-keyword",
          "undeclared-enum-item", "star-where-not-derived", "value-where-derived", "missing-required-aggregate",
          "dangling-reference", "wrong-typed-reference", "select-outside-list", "duplicate-id",
-         "unterminated-instance", "unterminated-string"]
+         "unterminated-instance", "unterminated-string", "wrong-element-kind"]
 LEXICAL = ("unterminated-instance", "unterminated-string")
 
 # several literals of a wrong kind per slot kind; which one is used is part of the seeded position
@@ -194,6 +194,8 @@ class C03(pw.P21Check):
             f.append("target-in-complex-part")
         if info.get("cat"):
             f.append("slot-type:" + info["cat"])
+        if info.get("elem_depth", 0) >= 2 or info.get("nested_attr"):
+            f.append("target-in-nested-aggregate")      # the value of an aggregate-of-aggregates attribute, at any depth below the top
         lines = pm.file_lines(plan["model"]["header"], plan["model"]["insts"])
         f += [x for x in pm.sep_features(lines, plan["render"].get("seps", {})) if not x.startswith("sep:")]
         return f
@@ -297,6 +299,33 @@ def corrupt(sch, model, kind, pos):
         alts = WRONG_LITERAL[t["k"]]
         ci[n]["parts"][pi]["vals"][si] = copy.deepcopy(alts[pos["other"] % len(alts)])
         return cm, info_for(n, pi, si, cat=cat_of(sl[si][1]))
+    if kind == "wrong-element-kind":
+        # "a parameter of the wrong literal kind" one or two levels down: an ELEMENT of an aggregate (of an aggregate) that is not of the
+        # element type - a string among integers, a scalar where an inner aggregate is required
+        c = candidates(lambda t, a, v, d: not d and t["k"] == "agg" and v[0] == "list" and v[1])
+        p = pick(c)
+        if not p:
+            return None, {}
+        n, pi, si = p
+        sl = slots_of(insts[n], pi)
+        cur_t = sch.resolve(sl[si][1]["type"])
+        cur_v = ci[n]["parts"][pi]["vals"][si]
+        depth = 0
+        while True:
+            et = sch.resolve(cur_t["elem"])
+            k = pos["elem"] % len(cur_v[1])
+            if et["k"] == "agg" and cur_v[1][k][0] == "list" and cur_v[1][k][1] and (pos["other"] // 7) % 3:
+                cur_t, cur_v, depth = et, cur_v[1][k], depth + 1
+                continue
+            break
+        if et["k"] not in WRONG_LITERAL or et["k"] == "select" or cur_v[1][k][0] in ("null", "typed"):
+            return None, {}
+        alts = WRONG_LITERAL[et["k"]]
+        cur_v[1][k] = copy.deepcopy(alts[pos["other"] % len(alts)])
+        info = info_for(n, pi, si, cat=cat_of(sl[si][1]))
+        info["elem_depth"] = depth + 1
+        info["nested_attr"] = sch.resolve(sch.resolve(sl[si][1]["type"])["elem"])["k"] == "agg"
+        return cm, info
     if kind == "unknown-keyword":
         n = pos["inst"] % len(insts)
         pi = pos["part"] % len(insts[n]["parts"])
@@ -318,12 +347,18 @@ def corrupt(sch, model, kind, pos):
         ci[n]["parts"][0]["vals"] = [["null"]] * nslots     # arity of the abstract entity: only abstractness is at fault
         return cm, info_for(n)
     if kind == "undeclared-enum-item":
-        c = candidates(lambda t, a, v, d: not d and v[0] == "enum" and t["k"] == "enum")
+        c = candidates(lambda t, a, v, d: not d and v[0] == "enum" and t["k"] in ("enum", "bool", "logical"))
         p = pick(c)
         if not p:
             return None, {}
         n, pi, si = p
         t = sch.resolve(slots_of(insts[n], pi)[si][1]["type"])
+        if t["k"] in ("bool", "logical"):
+            # BOOLEAN and LOGICAL are enumerations of .T. .F. (.U.): the spelled-out words and the name of stepcode's internal
+            # "unset" slot are not items, and .U. is not a BOOLEAN
+            cands = ["UNSET", "UNSET", "UNKNOWN", "TRUE", "FALSE", "NOT_AN_ITEM", "TT", "X"] + (["U", "U"] if t["k"] == "bool" else [])
+            ci[n]["parts"][pi]["vals"][si] = ["enum", cands[pos["other"] % len(cands)]]
+            return cm, info_for(n, pi, si, cat="enum")
         declared = [x.upper() for x in t["items"]]
         others = [x.upper() for td in sch.sd["types"] if td["def"]["k"] == "enum" for x in td["def"]["items"] if x.upper() not in declared]
         cands = ["NOT_AN_ITEM"]
